@@ -646,7 +646,9 @@ func (fr *frame) specVisit(in ssa.Instruction) (ok bool) {
 		if in.Op == token.MUL {
 			p, isPtr := fr.get(in.X).(*value)
 			if !isPtr || p == nil {
-				if _, isSym := fr.get(in.X).(*SymRef); !isSym {
+				switch fr.get(in.X).(type) {
+				case *SymRef, *PtrSet:
+				default:
 					return false
 				}
 			}
@@ -655,6 +657,8 @@ func (fr *frame) specVisit(in ssa.Instruction) (ok bool) {
 		if p, isPtr := fr.get(in.X).(*value); isPtr && p == nil {
 			return false
 		}
+	case *ssa.Slice:
+		return false
 	case *ssa.IndexAddr, *ssa.Index, *ssa.Lookup:
 		// only concrete, in-range indices (checked by spec flag below)
 	}
